@@ -186,6 +186,35 @@ func ruleC17Srv(c *Ctx) {
 		for _, s := range StoresTo(fn, "Replica", "mode") {
 			v := R.V(s.(*ssa.Store).Val)
 			want := map[string]string{`"RW"`: eqAtom(`"RW"`, "$1"), `"WO"`: eqAtom(`"WO"`, "$1")}[v]
+			// the mode was parsed first (`newMode, err := parse(mode); if err != nil { return err }`):
+			// a merge of constants, each arriving under its own comparison; an arm that carries
+			// another value is one on which the sibling error is non-nil, and the store stands
+			// behind that error's nil test
+			if phi, isPhi := s.(*ssa.Store).Val.(*ssa.Phi); isPhi && want == "" {
+				okAll := true
+				var perr *ssa.Phi
+				for _, in := range phi.Block().Instrs {
+					if q, ok := in.(*ssa.Phi); ok && q != phi && q.Type().String() == "error" {
+						perr = q
+					}
+				}
+				for i, e := range phi.Edges {
+					ev := R.V(e)
+					w := map[string]string{`"RW"`: eqAtom(`"RW"`, "$1"), `"WO"`: eqAtom(`"WO"`, "$1")}[ev]
+					pred := phi.Block().Preds[i]
+					if w != "" {
+						c.Guard(rule, fn, []ssa.Instruction{pred.Instrs[len(pred.Instrs)-1]}, "mode = "+ev+" (merged)", nil, atom("requested "+ev, w))
+						continue
+					}
+					if perr == nil || !provablyNonNilError(perr.Edges[i]) {
+						okAll = false
+					}
+				}
+				if okAll && perr != nil {
+					c.Guard(rule, fn, []ssa.Instruction{s}, "mode = parsed mode", nil, atom("parsing succeeded", isNilAtom(R.V(perr))))
+					continue
+				}
+			}
 			if want == "" {
 				c.Bad(rule, FnName(fn)+" | mode "+v, c.P.InstrPos(s), "unexpected mode value", nil)
 				continue
